@@ -158,6 +158,7 @@ func init() {
 		yHealthDims
 		yOrphanRevs
 		yStatusConflict
+		yCacheLosesSet
 	)
 	const (
 		nC10 = 1 << iota
@@ -206,6 +207,8 @@ func init() {
 		Runs: []runSpec{
 			syncRun("sync", []int{1, 2, 1, yUndefaulted | yHealthDims, nC15}, []int{2, 2, 1, yUndefaulted | yHealthDims, nC15},
 				[]string{"reconcile never panics"}, []string{"reconcile returned"}),
+			syncRun("sync-conflict-and-cache-miss", []int{1, 1, 0, yStatusConflict | yCacheLosesSet | yHealthDims, nC15}, []int{2, 2, 1, yStatusConflict | yCacheLosesSet | yHealthDims, nC15},
+				[]string{"reconcile never panics"}, []string{"the set leaves the cache during the reconcile", "fault injected at set.updateStatus"}),
 		},
 		Stubs:        ctlStubs,
 		Assumptions:  []string{"replicas and revisionHistoryLimit are non-nil (the CRD schema requires/defaults them)", "getPatch/ApplyRevision models as in C03"},
@@ -409,7 +412,7 @@ func init() {
 		Runs: []runSpec{
 			{Name: "migrate", Pkg: pkgCtl, Func: "VH_Migrate", Quick: []int{2}, Thorough: []int{3},
 				Bounds: func(a []int) string {
-					return fmt.Sprintf("three reconciles (with garbage-collector and kubelet steps between) on the world the upgrade helper leaves behind: %d pods at the current or update revision consistent with a partition in [0,%d], owned by nobody or still by the built-in UID, one or two marker-only orphan revisions, both policies", a[0], a[0])
+					return fmt.Sprintf("four reconciles (with garbage-collector steps that orphan one revision at a time, and kubelet steps, between) on the world the upgrade helper leaves behind: %d pods at the current or update revision consistent with a partition in [0,%d], owned by nobody or still by the built-in UID, one or two marker-only orphan revisions, both policies", a[0], a[0])
 				},
 				Asserts: []string{"the update revision resolves to the adopted built-in revision", "every marked revision is adopted", "revisions are label-synced before they are adopted", "every pod ends up adopted by the Advanced set", "the pod population is unchanged"},
 				Covers:  []string{"migration reconciled"}},
